@@ -127,6 +127,16 @@ def run(ctx, focus):
                 o1, e1, rc1 = common.run_cli('pcfg_guesser.py', ['-r', name, '-s', sess] + fl, stdin='pipe-open')
                 o2, e2, rc2 = common.run_cli('pcfg_guesser.py', ['-s', sess, '--load'], stdin='pipe-open')
                 cli_runs += 2
+                if not fl:
+                    # the same ruleset retrained (another UUID): the saved session must be refused - no guess is written
+                    spec2 = dict(spec, uuid='00000000-0000-0000-0000-0000000000ff')
+                    common.install_ruleset(spec2, name)
+                    o3, e3, rc3 = common.run_cli('pcfg_guesser.py', ['-s', sess, '--load'], stdin='pipe-open')
+                    cli_runs += 1
+                    if o3 != b'':
+                        violations.append({'property': 'C08', 'kind': 'uuid-mismatch-not-refused', 'lines': o3.count(b'\n'),
+                                           'witness': {'spec': spec, 'cli': fl, 'uuid_changed': True}})
+                    common.install_ruleset(spec, name)
                 if o1 != o2:
                     violations.append({'property': 'C08', 'kind': 'resume-cli-differs', 'flags': fl, 'first_run_lines': o1.count(b'\n'),
                                        'resumed_lines': o2.count(b'\n'), 'witness': {'spec': spec, 'cli': fl}})
